@@ -194,15 +194,20 @@ __attribute__((noinline)) void run_convert(long id, const char *desc, long long 
         }
         auto p = au::make_quantity_point<SrcU>(x);
         T a{}, b{}, c{};
+        R d{}, e{};
         VF_PHASE(vf::PH_OPERATION) {
             a = p.template coerce_in<T>(DstU{});
             b = p.template coerce_as<T>(DstU{}).in(DstU{});
             c = p.template as<T>(DstU{}).in(DstU{});
+            d = p.coerce_in(DstU{});                 // the unit-only forcing forms keep the rep
+            e = p.coerce_as(DstU{}).in(DstU{});
         }
-        g_st.evals += 3;
+        g_st.evals += 5;
         Judge<T>::run("coerce_in<T>", x, a, m);
         Judge<T>::run("coerce_as<T>", x, b, m);
         Judge<T>::run("as<T>", x, c, m);
+        Judge<R>::run("coerce_in(unit)", x, d, m);
+        Judge<R>::run("coerce_as(unit)", x, e, m);
         ImplicitForms<SrcU, R, DstU, Implicit>::run(x, m);
         ImplicitCtor<SrcU, R, DstU, T>::run(x, m);
     });
@@ -326,6 +331,16 @@ VF_NOSAN std::vector<V> shift_values(u64 seed, std::false_type) {
     if (sizeof(V) > 2) { vf::Rng r(seed); for (int i = 0; i < 200; ++i) { long long t = (long long)(r.next() % 60001) - 30000; if (t >= 0 || std::is_signed<V>::value) v.push_back((V)t); } }
     return v;
 }
+// `p += d` / `p -= d` with a displacement of another unit and rep: where the library offers it, the point must move by exactly
+// that displacement (so an integral point cannot take a fractional one: either the statement does not compile or it is exact)
+template <typename P, typename D, typename = void> struct CanPlusAssign : std::false_type {};
+template <typename P, typename D> struct CanPlusAssign<P, D, decltype(void(std::declval<P &>() += std::declval<D>()))> : std::true_type {};
+template <typename P, typename D, typename = void> struct CanMinusAssign : std::false_type {};
+template <typename P, typename D> struct CanMinusAssign<P, D, decltype(void(std::declval<P &>() -= std::declval<D>()))> : std::true_type {};
+template <typename P, typename D, bool Plus, bool Can> struct CompoundShift { static bool run(P &, D) { return false; } };
+template <typename P, typename D> struct CompoundShift<P, D, true, true> { static bool run(P &p, D d) { p += d; return true; } };
+template <typename P, typename D> struct CompoundShift<P, D, false, true> { static bool run(P &p, D d) { p -= d; return true; } };
+
 template <typename PU, typename R1, typename QU, typename R2>
 __attribute__((noinline)) void run_shift(long id, const char *desc, long long kn, long long kd, long long offn, long long offd, u64 nrandom, u64 seed) {
     using C = std::common_type_t<R1, R2>;
@@ -373,6 +388,17 @@ __attribute__((noinline)) void run_shift(long id, const char *desc, long long kn
             VF_PHASE(vf::PH_OPERATION) { dn = (p - d).template coerce_in<ld>(PU{}); }
             g_st.evals++; g_st.judged++;
             if (!(std::fabs(dn - (X - Y)) <= tol)) mismatch("p-d (mixed)", x, y, dn, X - Y);
+        }
+        {   // compound forms (the result stays in the point's own unit and rep)
+            using P = au::QuantityPoint<PU, R1>; using D = au::Quantity<QU, R2>;
+            const ld limp = std::is_integral<R1>::value ? std::ldexp((ld)1, std::numeric_limits<R1>::digits - 10) : (ld)std::numeric_limits<R1>::max() / 1024;
+            const ld tolp = (std::is_integral<R1>::value ? 0 : 8 * ulp_of<R1>(big)) + (std::is_integral<R1>::value && std::is_integral<R2>::value ? 0 : 4 * ulp_of<ld>(big));
+            if (big * (ld)kd * (ld)(kn > kd ? kn : kd) <= limp && !(std::is_unsigned<R1>::value && (X < 0 || Y < 0 || X - Y < 0))) {
+                P p1 = p, p2 = p; bool did1 = false, did2 = false;
+                VF_PHASE(vf::PH_OPERATION) { did1 = CompoundShift<P, D, true, CanPlusAssign<P, D>::value>::run(p1, d); did2 = CompoundShift<P, D, false, CanMinusAssign<P, D>::value>::run(p2, d); }
+                if (did1) { g_st.evals++; g_st.judged++; if (!(std::fabs((ld)p1.in(PU{}) - (X + Y)) <= tolp)) mismatch("p+=d (mixed)", x, y, (ld)p1.in(PU{}), X + Y); }
+                if (did2) { g_st.evals++; g_st.judged++; if (!(std::fabs((ld)p2.in(PU{}) - (X - Y)) <= tolp)) mismatch("p-=d (mixed)", x, y, (ld)p2.in(PU{}), X - Y); }
+            }
         }
         // the same two numbers as *points* of the two units and reps: ordering and displacement by absolute position
         {
